@@ -16,16 +16,19 @@
 (* at three bases (mid-range, straddling 2^31, straddling the 2^32 wrap).   *)
 EXTENDS SigRules, TLC, Json
 
-CONSTANTS MaxLog, MaxVariantCalls
+CONSTANTS MaxLog, MaxVariantCalls,
+          Cfgs      \* validation-cache TTL configurations of the validator to run the history under:
+                    \* "none" (default), "minAbove" (minimum above any signature lifetime of the case),
+                    \* "maxBelow" (maximum of one second).  The requirements do not depend on it.
 
-VARIABLES gclk, gest, glog, gnvar
+VARIABLES gclk, gest, glog, gnvar, gcfg
 
-gvars == <<gclk, gest, glog, gnvar>>
+gvars == <<gclk, gest, glog, gnvar, gcfg>>
 
 IsVariant(a) == a.rr # "genuine" \/ a.sig # "genuine" \/ a.key # "genuine"
 NCalls == Cardinality({i \in 1..Len(glog) : glog[i].op = "v"})
 
-GInit == gclk \in ClkStarts /\ gest = FALSE /\ glog = <<>> /\ gnvar = 0
+GInit == gclk \in ClkStarts /\ gest = FALSE /\ glog = <<>> /\ gnvar = 0 /\ gcfg \in Cfgs
 
 GCall(a) ==
     /\ a \in ArgSet /\ Len(glog) < MaxLog /\ NCalls < MaxCalls
@@ -38,16 +41,17 @@ GCall(a) ==
                                       key |-> (a.key = "genuine" \/ gest),
                                       window |-> MayBeInWindow(Inc, Exp, gclk)],
                              ttlmax |-> TtlMax(gclk),
+                             stray |-> HasStray(a.rr), mayStray |-> MayStraySecure,
                              fresh |-> IF FreshSecure(a, gclk) THEN "Secure" ELSE "NotSecure"])
     /\ gest' = (gest \/ Establishes(a, gclk))
-    /\ UNCHANGED gclk
+    /\ UNCHANGED <<gclk, gcfg>>
 
 GAdvance(d) ==
     /\ d \in Steps /\ Len(glog) < MaxLog - 1
     /\ glog # <<>> /\ glog[Len(glog)].op = "v"      \* time passes between calls only
     /\ gclk' = (gclk + d) % M
     /\ glog' = Append(glog, [op |-> "adv", d |-> d])
-    /\ UNCHANGED <<gest, gnvar>>
+    /\ UNCHANGED <<gest, gnvar, gcfg>>
 
 GNext == (\E a \in ArgSet : GCall(a)) \/ (\E d \in Steps : GAdvance(d))
 GSpec == GInit /\ [][GNext]_gvars
@@ -57,7 +61,7 @@ GSpec == GInit /\ [][GNext]_gvars
 \* those whose last call is a variant)
 Complete == glog # <<>> /\ glog[Len(glog)].op = "v"
 
-Case == [start |-> glog[1].clk, inc |-> Inc, exp |-> Exp, incAlt |-> IncAlt, expAlt |-> ExpAlt,
+Case == [cfg |-> gcfg, start |-> glog[1].clk, inc |-> Inc, exp |-> Exp, incAlt |-> IncAlt, expAlt |-> ExpAlt,
          origTtl |-> OrigTtl, origTtlAlt |-> OrigTtlAlt, nameCaseSigned |-> NameCaseSigned, log |-> glog]
 
 Emit == Complete => PrintT(<<"REPLAY", ToJson(Case)>>)
